@@ -5,32 +5,51 @@ import Rawr.Proofs.RustImpAgree_MoveGen
 # Agreement for qsearch.rs
 
 `R.qsearch` (regenerated from qsearch.rs) is the model's `qsearch`, fuel for fuel, on every position from which the
-move ordering cannot hit `piece.unwrap()` on an empty origin square (`OrderOk`, see `RustSearchAgree_Sort.lean`; it
-quantifies over the positions reachable by generated moves and null moves, so it is closed under the recursion).
+move ordering cannot hit `piece.unwrap()` on an empty origin square within the tree the search walks
+(`QOrderOk fuel p` for quiescence, `OrderOkN fuel p` for the main search, see `RustSearchAgree_Sort.lean`).
+Both are defined by recursion on the fuel along exactly the steps the search makes: quiescence plays generated
+captures with `makemove::<false>`; the main search plays generated moves with `makemove::<true>`, tries a null move
+only when not in check, and drops into quiescence with the constant fuel `qFuel`.
+`RustSearchAgree_Rules.lean` proves both for every valid position with counter room.
 -/
 namespace Rawr
 
-/-- positions reachable by generated moves (with or without hash update) and null moves. -/
-inductive Reach : Position → Position → Prop
-  | refl (p : Position) : Reach p p
-  | move {p q r : Position} {m : Mv} {b : Bool} : Reach p q → m ∈ legalMoves q → q.makemove m b = some r → Reach p r
-  | null {p q : Position} : Reach p q → Reach p q.makenull
+/-- the ordering code of quiescence cannot panic in the first `n` plies below `q`. -/
+def QOrderOk : Nat → Position → Prop
+  | 0, _ => True
+  | n + 1, q => SrcOk q (legalMoves q) ∧
+      ∀ m ∈ legalCaptures q, ∀ r, q.makemove m false = some r → QOrderOk n r
 
-/-- in every position reachable from `p` each generated capture starts from an occupied square. -/
-def OrderOk (p : Position) : Prop := ∀ q, Reach p q → SrcOk q (legalMoves q)
+/-- the ordering code of the main search and of the quiescence it calls cannot panic in the first `n` plies below `q`. -/
+def OrderOkN : Nat → Position → Prop
+  | 0, _ => True
+  | n + 1, q => SrcOk q (legalMoves q) ∧ QOrderOk qFuel q ∧
+      (∀ m ∈ legalMoves q, ∀ r, q.makemove m true = some r → OrderOkN n r) ∧
+      (q.inCheck = false → OrderOkN n q.makenull)
 
-theorem Reach.trans {p q r : Position} (h1 : Reach p q) (h2 : Reach q r) : Reach p r := by
-  induction h2 with
-  | refl => exact h1
-  | move _ hm hk ih => exact Reach.move ih hm hk
-  | null _ ih => exact Reach.null ih
+/-- positions reachable in exactly `k` plies of the main search: generated moves, null moves when not in check. -/
+inductive ReachN : Nat → Position → Position → Prop
+  | refl (p : Position) : ReachN 0 p p
+  | move {k : Nat} {p q r : Position} {m : Mv} : m ∈ legalMoves p → p.makemove m true = some q → ReachN k q r →
+      ReachN (k + 1) p r
+  | null {k : Nat} {p r : Position} : p.inCheck = false → ReachN k p.makenull r → ReachN (k + 1) p r
 
-theorem OrderOk.here {p : Position} (h : OrderOk p) : SrcOk p (legalMoves p) := h p (Reach.refl p)
-theorem OrderOk.move {p r : Position} {m : Mv} {b : Bool} (h : OrderOk p) (hm : m ∈ legalMoves p)
-    (hk : p.makemove m b = some r) : OrderOk r :=
-  fun q hq => h q (Reach.trans (Reach.move (Reach.refl p) hm hk) hq)
-theorem OrderOk.null {p : Position} (h : OrderOk p) : OrderOk p.makenull :=
-  fun q hq => h q (Reach.trans (Reach.null (Reach.refl p)) hq)
+/-- what `OrderOkN` says in terms of reachability. -/
+theorem OrderOkN.reach {n : Nat} {p : Position} (h : OrderOkN n p) {k : Nat} {q : Position} (hr : ReachN k p q)
+    (hk : k < n) : SrcOk q (legalMoves q) ∧ QOrderOk qFuel q := by
+  induction hr generalizing n with
+  | refl p =>
+    cases n with
+    | zero => omega
+    | succ n => exact ⟨h.1, h.2.1⟩
+  | move hm hmk _ ih =>
+    cases n with
+    | zero => omega
+    | succ n => exact ih (h.2.2.1 _ hm _ hmk) (by omega)
+  | null hc _ ih =>
+    cases n with
+    | zero => omega
+    | succ n => exact ih (h.2.2.2 hc) (by omega)
 
 theorem legalCaptures_sub (p : Position) : ∀ m ∈ legalCaptures p, m ∈ legalMoves p := by
   intro m hm
@@ -70,7 +89,7 @@ theorem qloop_eq (recR recM : Position → QState → Int → Int → Int → Op
         · simp only [hge, if_false]
           exact ih (fun m' hm' => hrec m' (by simp [hm'])) _ _ _
 
-theorem agree_qsearch : ∀ (fuel : Nat) (p : Position), OrderOk p → ∀ (st : QState) (alpha beta ply : Int),
+theorem agree_qsearch : ∀ (fuel : Nat) (p : Position), QOrderOk fuel p → ∀ (st : QState) (alpha beta ply : Int),
     R.qsearch fuel p st alpha beta ply = qsearch fuel p st alpha beta ply := by
   intro fuel
   induction fuel with
@@ -79,7 +98,7 @@ theorem agree_qsearch : ∀ (fuel : Nat) (p : Position), OrderOk p → ∀ (st :
     intro p hok st alpha beta ply
     unfold R.qsearch qsearch
     simp only [agree_eval, agree_legal_captures]
-    rw [agree_qs_sort p _ (hok.here.sub (legalCaptures_sub p))]
+    rw [agree_qs_sort p _ (hok.1.sub (legalCaptures_sub p))]
     by_cases hge : eval p ≥ beta
     · simp only [hge, if_true]
     · simp only [hge, if_false]
@@ -90,7 +109,7 @@ theorem agree_qsearch : ∀ (fuel : Nat) (p : Position), OrderOk p → ∀ (st :
         have hperm := sortQs_perm p _ _ hs
         rw [← qloop_eq (R.qsearch fuel) (qsearch fuel) p beta ply moves (fun m hm np hk => by
           funext st a b pl
-          exact ih np (hok.move (legalCaptures_sub p m (hperm.mem_iff.mp hm)) hk) st a b pl)]
+          exact ih np (hok.2 m (hperm.mem_iff.mp hm) np hk) st a b pl)]
         cases R.qsearch_loop1 (R.qsearch fuel) p beta ply moves _ _ _ with
         | none => rfl
         | some v => rcases v with ⟨s, b, a⟩; rfl
